@@ -175,6 +175,9 @@ def run(res, ctx):
                      ("after-formfeed-line", "x = 1\n\x0c\ny = 2  # {c}\n", 3), ("after-u2028-in-string", "s = 'a\u2028b'\ny = 2  # {c}\n", 2),
                      ("after-vt-fs-nel-u2029", "s = 'a\x0bb\x1cc\x85d\u2029e\x1d\x1e'\n# {c}\n", 2), ("formfeed-same-line", "\x0cx = 1  # {c}\n", 1),
                      # a module without a single statement (licence header, empty __init__): still scanned (seeded change C19-m5 returned early on zero lines of code)
+                     # a nosec comment on the FIRST line is a comment on line 1, not on the file: the character further down is still reported (seeded change C19-m18
+                     # gave whole-file checks the context of line 1; through a channel that puts a cookie line in front the same program kept its finding)
+                     ("nosec-first-line-bidi-later", "x = 0  # nosec\ny = 1\ns = 'ab{c}cd'\n", 3), ("nosec-b613-first-line", "import os  # nosec B613\n\n# {c}\n", 3),
                      ("comment-only-module", "# licence {c} header\n# more text\n", 1), ("comment-only-no-newline", "#{c}", 1), ("blank-then-comment", "\n\n   # {c}\n", 3)]
         chars = BIDI if thorough else rng.sample(BIDI, 4)
         reqs, expect = [], []
